@@ -109,20 +109,21 @@ type Runner struct {
 	Self   string
 	child  *ChildCore
 
-	mu         sync.Mutex
-	ungated    map[string]bool // gates removed by the scenario: late arrivals pass
-	hookN      map[string]int  // invocations of each probe hook in the current scenario
-	scn        *Scenario
-	envAlias   map[string]string // real env id -> alias
-	aliasEnv   map[string]string // alias -> real id
-	taskAlias  map[string]string
-	taskN      int
-	calls      map[string]chan struct{}
-	matchers   map[string]map[string]string
-	tainted    bool
-	buf        []map[string]interface{}
-	quietUntil time.Time
-	roster     map[string]chan struct{}
+	mu          sync.Mutex
+	ungated     map[string]bool // gates removed by the scenario: late arrivals pass
+	hookN       map[string]int  // invocations of each probe hook in the current scenario
+	hookStarted map[string]int  // probe hooks whose function has begun to execute in the current scenario (step waithook)
+	scn         *Scenario
+	envAlias    map[string]string // real env id -> alias
+	aliasEnv    map[string]string // alias -> real id
+	taskAlias   map[string]string
+	taskN       int
+	calls       map[string]chan struct{}
+	matchers    map[string]map[string]string
+	tainted     bool
+	buf         []map[string]interface{}
+	quietUntil  time.Time
+	roster      map[string]chan struct{}
 }
 
 // rosterSeen / waitRoster: the simulated agent reports TASK_RUNNING only once the core has written
@@ -428,6 +429,10 @@ func (r *Runner) pluginHandler(call *callable.Call, fn string, arg string) strin
 	if r.scn != nil {
 		b = r.scn.Hooks[arg]
 	}
+	if r.hookStarted == nil {
+		r.hookStarted = map[string]int{}
+	}
+	r.hookStarted[arg]++
 	r.mu.Unlock()
 	if b.SleepMs > 0 {
 		time.Sleep(time.Duration(b.SleepMs) * time.Millisecond)
@@ -925,6 +930,7 @@ func (r *Runner) Run(s *Scenario) {
 	r.matchers = map[string]map[string]string{}
 	r.ungated = map[string]bool{}
 	r.hookN = map[string]int{}
+	r.hookStarted = map[string]int{}
 	r.mu.Unlock()
 	r.Master.SetAgents(s.Agents)
 	var model interface{}
